@@ -457,7 +457,9 @@ class _FuncEval:
             return None
         call = None
         mode = None
-        if isinstance(s, ast.Assign) and len(s.targets) == 1 and isinstance(s.targets[0], ast.Name) and isinstance(s.value, ast.Call):
+        if isinstance(s, ast.Return) and isinstance(s.value, ast.Call):
+            call, mode = s.value, "T4"
+        elif isinstance(s, ast.Assign) and len(s.targets) == 1 and isinstance(s.targets[0], ast.Name) and isinstance(s.value, ast.Call):
             call, mode = s.value, "T1"
         elif isinstance(s, ast.If) and not s.orelse and isinstance(s.test, ast.UnaryOp) and isinstance(s.test.op, ast.Not) and \
                 isinstance(s.test.operand, ast.Call):
@@ -496,6 +498,13 @@ class _FuncEval:
         if a.vararg or a.kwarg or a.posonlyargs:
             return None
         body = [b for b in f.node.body if not (isinstance(b, ast.Expr) and isinstance(b.value, ast.Constant))]
+        if mode == "T4":
+            # T4  a tail call:  return H(a)  ==>  parameter bindings; H's body verbatim (its returns are the caller's returns).
+            # Only worth doing (and only done) when H contains a loop: loop-free helpers are inlined as values already.
+            if not any(isinstance(n, (ast.For, ast.While)) for n in ast.walk(f.node)) or \
+                    any(isinstance(n, (ast.Yield, ast.YieldFrom, ast.Await, ast.Global, ast.Nonlocal)) for n in ast.walk(f.node)):
+                return None
+            return self._bind_and_rename(f, call, recv_expr, body, st, lambda out, ren: None)
         if len(body) < 2 or not isinstance(body[-1], ast.Return) or not isinstance(body[-2], (ast.For, ast.While)) or body[-2].orelse:
             return None
         loop, tail, prefix = body[-2], body[-1], body[:-2]
@@ -611,6 +620,62 @@ class _FuncEval:
                                     tuple(self.try_stack), True))  # keeps the call-graph edge; the body is analysed in place
         return out
 
+    def _bind_and_rename(self, f: FuncInfo, call: ast.Call, recv_expr, body: list, st: State, finish) -> Optional[list]:
+        """Statements `p' = arg` for every parameter of f followed by a renamed-apart copy of `body`."""
+        import copy
+        a = f.node.args
+        params = [p_.arg for p_ in a.args + a.kwonlyargs]
+        locals_ = set(params)
+        for n in ast.walk(f.node):
+            if isinstance(n, ast.Name) and isinstance(n.ctx, (ast.Store, ast.Del)):
+                locals_.add(n.id)
+        self.ev._expand_counter = getattr(self.ev, "_expand_counter", 0) + 1
+        suffix = f"__{f.name.strip('_')}{self.ev._expand_counter}"
+
+        class Ren(ast.NodeTransformer):
+            def visit_Name(self, n):
+                if n.id in locals_:
+                    return ast.copy_location(ast.Name(id=n.id + suffix, ctx=n.ctx), n)
+                return n
+        given: dict = {}
+        pos = list(a.args)
+        if recv_expr is not None:
+            if not pos:
+                return None
+            given[pos[0].arg] = recv_expr
+            pos = pos[1:]
+        elif f.kind in ("method", "classmethod"):
+            return None
+        if len(call.args) > len(pos):
+            return None
+        for p_, v in zip(pos, call.args):
+            given[p_.arg] = v
+        for k in call.keywords:
+            if k.arg in given or k.arg not in params:
+                return None
+            given[k.arg] = k.value
+        defaults = {}
+        for p_, d in zip(a.args[len(a.args) - len(a.defaults):], a.defaults):
+            defaults[p_.arg] = d
+        for p_, d in zip(a.kwonlyargs, a.kw_defaults):
+            if d is not None:
+                defaults[p_.arg] = d
+        out: list = []
+        for p_ in params:
+            v = given.get(p_, defaults.get(p_))
+            if v is None:
+                return None
+            out.append(ast.copy_location(ast.Assign(targets=[ast.Name(id=p_ + suffix, ctx=ast.Store())], value=v), call))
+        for x in body:
+            out.append(Ren().visit(copy.deepcopy(x)))
+        finish(out, Ren)
+        for x in out:
+            ast.fix_missing_locations(x)
+        self.ev.deep_inlined.add(f.qual)
+        self.s.calls.append(CallRec(("expanded", f.qual), (), (), st.cond, tuple(self.loop_stack), call, ("expanded", f.qual),
+                                    tuple(self.try_stack), True))
+        return out
+
     def _resolve_helper(self, fn: ast.AST, st: State):
         """(FuncInfo, receiver expression | None) for the callee expression of a call, without recording anything."""
         f = None
@@ -660,9 +725,18 @@ class _FuncEval:
         bad = (ast.Return, ast.Yield, ast.YieldFrom, ast.Await, ast.FunctionDef, ast.Lambda, ast.ClassDef, ast.Global, ast.Nonlocal)
         if any(isinstance(n, bad) for p_ in prefix for n in ast.walk(p_)):
             return None
-        ys = [(i, x) for i, x in enumerate(loop.body) if isinstance(x, ast.Expr) and isinstance(x.value, ast.Yield)]
+        # the single yield: a statement of the loop body or of an if/elif/else arm inside it (not inside a nested loop / try / with)
+        def find_yield(stmts):
+            hits = []
+            for i, x in enumerate(stmts):
+                if isinstance(x, ast.Expr) and isinstance(x.value, ast.Yield):
+                    hits.append((stmts, i))
+                elif isinstance(x, ast.If):
+                    hits += find_yield(x.body) + find_yield(x.orelse)
+            return hits
+        ys = find_yield(loop.body)
         n_y = sum(isinstance(n, (ast.Yield, ast.YieldFrom)) for n in ast.walk(loop))
-        if len(ys) != 1 or n_y != 1 or ys[0][1].value.value is None:
+        if len(ys) != 1 or n_y != 1 or ys[0][0][ys[0][1]].value.value is None:
             return None
         if any(isinstance(n, (ast.Return, ast.Await, ast.Lambda, ast.FunctionDef, ast.ClassDef, ast.Try, ast.With)) for n in ast.walk(loop)):
             return None
@@ -726,10 +800,11 @@ class _FuncEval:
         for x in prefix:
             out.append(Ren().visit(copy.deepcopy(x)))
         new_loop = Ren().visit(copy.deepcopy(loop))
-        i = ys[0][0]
-        yv = new_loop.body[i].value.value
+        ys2 = find_yield(new_loop.body)
+        lst, i = ys2[0]
+        yv = lst[i].value.value
         bind = ast.copy_location(ast.Assign(targets=[copy.deepcopy(s.target)], value=yv), s)
-        new_loop.body[i:i + 1] = [bind] + list(s.body)
+        lst[i:i + 1] = [bind] + list(s.body)
         out.append(new_loop)
         for x in out:
             ast.fix_missing_locations(x)
@@ -738,8 +813,64 @@ class _FuncEval:
                                     tuple(self.try_stack), True))  # keeps the call-graph edge; the body is analysed in place
         return out
 
+    @staticmethod
+    def _unconditional_calls(e: Optional[ast.AST]) -> set:
+        """Call nodes of the expression that are evaluated whenever the expression is (not under and/or, a conditional
+        expression, a comparison chain, a comprehension or a lambda), in evaluation order irrelevant here."""
+        out: set = set()
+
+        def go(n):
+            if n is None:
+                return
+            if isinstance(n, ast.Call):
+                out.add(id(n))
+                go(n.func)
+                for a in n.args:
+                    go(a)
+                for k in n.keywords:
+                    go(k.value)
+            elif isinstance(n, ast.BinOp):
+                go(n.left)
+                go(n.right)
+            elif isinstance(n, ast.UnaryOp):
+                go(n.operand)
+            elif isinstance(n, ast.Compare):
+                go(n.left)
+                if len(n.ops) == 1:
+                    go(n.comparators[0])
+            elif isinstance(n, (ast.Attribute, ast.Starred)):
+                go(n.value)
+            elif isinstance(n, ast.Subscript):
+                go(n.value)
+                go(n.slice)
+            elif isinstance(n, (ast.Tuple, ast.List, ast.Set)):
+                for x in n.elts:
+                    go(x)
+            elif isinstance(n, ast.Dict):
+                for x in list(n.keys) + list(n.values):
+                    go(x)
+            elif isinstance(n, ast.JoinedStr):
+                for x in n.values:
+                    go(x)
+            elif isinstance(n, ast.FormattedValue):
+                go(n.value)
+            elif isinstance(n, ast.Slice):
+                go(n.lower)
+                go(n.upper)
+                go(n.step)
+            elif isinstance(n, ast.BoolOp):
+                go(n.values[0])
+            elif isinstance(n, ast.IfExp):
+                go(n.test)
+        go(e)
+        return out
+
     def stmt(self, s: ast.AST, st: State) -> Optional[State]:
-        if self.ev.deep_inline_in and isinstance(s, (ast.Assign, ast.If)):
+        if self.ev.deep_inline_in:
+            e_ = s.value if isinstance(s, (ast.Assign, ast.AnnAssign, ast.AugAssign, ast.Return, ast.Expr)) else \
+                s.test if isinstance(s, ast.If) else s.exc if isinstance(s, ast.Raise) else None
+            self._uncond = self._unconditional_calls(e_)
+        if self.ev.deep_inline_in and isinstance(s, (ast.Assign, ast.If, ast.Return)):
             blk = self._expand_loop_helper(s, st)
             if blk is not None:
                 return self.block(blk, st)
@@ -1647,9 +1778,12 @@ class _FuncEval:
         private_helper = f.name.startswith("_") and not f.name.startswith("__") and not isinstance(f.node, ast.Lambda)
         if f.nested or f.nested_classes:
             leaf = expr_wrapper = private_helper = False  # a function that defines local helpers is a unit of its own
-        if (private_helper and len(live) > 1 and (getattr(self, "_value_call", None) is n or getattr(self, "_stmt_call", None) is n)
+        whole_rhs = getattr(self, "_value_call", None) is n or getattr(self, "_stmt_call", None) is n or \
+            (bool(self.ev.deep_inline_in) and id(n) in getattr(self, "_uncond", ()))  # evaluated whenever its statement is
+        if (private_helper and len(live) > 1 and (whole_rhs or all(e.kind == "ret" for e in live))
                 and not sm.loops and not sm.effects and not sm.unsupported and not sm.trys
                 and all(e.kind in ("ret", "raise") for e in sm.exits)):
+            # (a helper without raise exits is a pure conditional value: it can be inlined in any expression position)
             # a private helper that is a loop-free, effect-free decision (guards that raise, early returns) called as the whole
             # right-hand side of a statement: its raise exits become exits of the caller, its returns a conditional value, and the
             # caller continues under "the helper returned"
